@@ -233,3 +233,45 @@ func zzC13ClientStart() {
 	}
 	vReach("end")
 }
+
+// ---------------------------------------------------------------- C07: what a server session may negotiate is decided by ITS transport
+//
+// One Server, several sessions over different transports (the stateless-per-request pattern mounts one Server on several
+// handlers): each session's list of servable versions is exactly what its own transport supports — whatever other
+// transports the same Server was connected to before.
+
+func zzSameVersions(a, b []string) bool {
+	if len(a) != len(b) {
+		return false
+	}
+	for i := range a {
+		if a[i] != b[i] {
+			return false
+		}
+	}
+	return true
+}
+
+func zzC07Transport(tag string) Transport {
+	switch vChoice(tag, 4) {
+	case 0:
+		return &InMemoryTransport{}
+	case 1:
+		return &SSEServerTransport{}
+	case 2:
+		return &StreamableServerTransport{Stateless: false, SessionID: "S"}
+	}
+	return &StreamableServerTransport{Stateless: true}
+}
+
+func zzC07ServerSessions() {
+	zzKA = &zzKAStart{}
+	srv := NewServer(&Implementation{Name: "s", Version: "v"}, nil)
+	t1, t2 := zzC07Transport("first"), zzC07Transport("second")
+	s1, err1 := srv.Connect(context.Background(), t1, nil)
+	s2, err2 := srv.Connect(context.Background(), t2, nil)
+	vAssert(err1 == nil && err2 == nil, "C07.server-connect-ok")
+	vAssert(s1.supportedVersions != nil && zzSameVersions(s1.supportedVersions, filterSupportedVersions(t1)), "C07.session-serves-what-its-own-transport-supports")
+	vAssert(s2.supportedVersions != nil && zzSameVersions(s2.supportedVersions, filterSupportedVersions(t2)), "C07.session-serves-what-its-own-transport-supports")
+	vReach("end")
+}
